@@ -66,6 +66,22 @@ MulAddHornerShaped ==
     /\ Len(calls) >= 2 => (calls[2].op = "add" /\ (ReadsRet(calls[2], 1, calls[1].ret) \/ ReadsRet(calls[2], 2, calls[1].ret)))
     /\ Len(calls) >= 3 => (calls[3].op = "horner" /\ (ReadsRet(calls[3], 1, calls[1].ret) \/ ReadsRet(calls[3], 3, calls[1].ret)))
 
+\* a private input that the kept operations read ONLY through a third operand (the addend of mul_add, p_at_z or the
+\* accumulator of a Horner step), next to two additions over public inputs that connects can make duplicates of each other
+\* and tie to that private input: the shape in which dedup may redirect a slot an earlier kept op still reads
+ArgIs(cl, k, kind) == graph[handles[cl.args[k] + 1]].k = kind
+PubNo(cl, k) == graph[handles[cl.args[k] + 1]].v      \* position of the public input an argument denotes
+RedirectShaped ==
+    /\ Len(calls) >= 1 => (calls[1].op = "add" /\ ArgIs(calls[1], 1, "pub") /\ ArgIs(calls[1], 2, "pub") /\ PubNo(calls[1], 1) = 1 /\ PubNo(calls[1], 2) = 2)
+    /\ Len(calls) >= 2 => \/ (calls[2].op = "muladd" /\ ArgIs(calls[2], 1, "pub") /\ ArgIs(calls[2], 2, "pub") /\ ArgIs(calls[2], 3, "priv"))
+                          \/ (calls[2].op = "horner" /\ (ArgIs(calls[2], 1, "priv") \/ ArgIs(calls[2], 3, "priv"))
+                                /\ \A k \in 1..4 : ArgIs(calls[2], k, "pub") \/ ArgIs(calls[2], k, "priv") \/ handles[calls[2].args[k] + 1] = calls[1].ret)
+    /\ Len(calls) >= 3 => (calls[3].op = "add" /\ ArgIs(calls[3], 1, "pub") /\ ArgIs(calls[3], 2, "pub") /\ (PubNo(calls[3], 1) = 3 \/ PubNo(calls[3], 2) = 3))
+    \* then: one connect between two public inputs, one between the private input and the second addition
+    /\ Len(calls) >= 4 => (calls[4].op = "connect" /\ ArgIs(calls[4], 1, "pub") /\ ArgIs(calls[4], 2, "pub"))
+    /\ Len(calls) >= 5 => (calls[5].op = "connect" /\ \E k \in 1..2 : ArgIs(calls[5], k, "priv") /\ handles[calls[5].args[3 - k] + 1] = calls[3].ret)
+    /\ Len(calls) <= 5
+
 \* Invariants for the guarded (sound) design
 SoundC03 == OpsImplySource
 SoundC02 == stage = "done" => \A env \in Envs : ValuesPreservedAt(env) /\ ViolationDetectedAt(env)
